@@ -138,7 +138,7 @@ def runShow (E : Env LitPat) (c : NCfg LitPat) : Sess → List Ev → List Strin
     let new := s'.out.drop s.out.length
     (if new.isEmpty then "." else ",".intercalate (new.map showOut)) :: runShow E c s' es
 
-def step (line : String) : String :=
+def stepPure (line : String) : String :=
   match fields line with
   | ["hh", tcp, dc, ds] =>
     match flag? tcp, hexOr dc, hexOr ds with
@@ -180,6 +180,32 @@ def step (line : String) : String :=
     | _, _ => "bad-op"
   | _ => "bad-op"
 
+/-- `ig`/`al` field of an `hset` line: `=` leaves the option as it is -/
+def optPats? (s : String) : Option (Option (List LitPat)) :=
+  if s = "=" then some none else (pats? s).map some
+
+/-- stateful part: a history on one addon instance (`hreset`, `hset`, `hconn`); everything else is stateless -/
+def step (a : Addon LitPat) (line : String) : Addon LitPat × String :=
+  match fields line with
+  | ["hreset"] => (⟨[], []⟩, "ok")
+  | ["hset", ig, al] =>
+    match optPats? ig, optPats? al with
+    | some ig, some al => ((hstep (Pat := LitPat) ⟨litSearch, fun _ => false, fun _ => .invalid⟩ a (.setOpts ig al)).1, "ok")
+    | _, _ => (a, "bad-op")
+  | "hconn" :: rest =>
+    match parseCfg rest with
+    | some (c, E, [dc, ds]) =>
+      match hexOr dc, hexOr ds with
+      | some dc, some ds =>
+        match (hstep E a (.conn c dc ds)).2 with
+        | some (.ok b, .ok st) => (a, "ok " ++ (if b then "1" else "0") ++ " " ++ showStack st)
+        | some (.needMore, _) => (a, "need")
+        | some (_, .needMore) => (a, "need")
+        | none => (a, "bad-op")
+      | _, _ => (a, "bad-op")
+    | _ => (a, "bad-op")
+  | _ => (a, stepPure line)
+
 end C19Driver
 
-def main : IO Unit := runPure C19Driver.step
+def main : IO Unit := runState C19Driver.step ⟨[], []⟩
